@@ -83,9 +83,9 @@ func (c Case) sharedObjects() []string {
 		case p.Format == "grpcjson":
 			out = append(out, "ammo_pool_grpcjson")
 		case p.Preload:
-			out = append(out, "preloaded_ammo_"+p.Format)
+			out = append(out, "http_preloaded_ammo", "http_fmt_"+p.Format)
 		default:
-			out = append(out, "streamed_ammo_"+p.Format)
+			out = append(out, "http_streamed_ammo", "http_fmt_"+p.Format)
 		}
 	}
 	if s := c.Scen; s != nil {
